@@ -117,6 +117,7 @@ func loadEngine(repo string) (*Engine, error) {
 		return nil, err
 	}
 	e.cs = cs
+	theEngine = e
 	return e, nil
 }
 
@@ -363,6 +364,14 @@ func (e *Engine) localMods(fn *ssa.Function) (map[string]bool, []*ssa.Function, 
 			case ssa.CallInstruction:
 				c := x.Common()
 				if c.IsInvoke() {
+					if con := e.ifaceContract(c); con != nil && con.HasMod {
+						// effects confined by the interface contract (every implementation is checked against it)
+						var ps []*ssa.Parameter
+						args := append([]ssa.Value{c.Value}, c.Args...)
+						e.confinedIface(con, c, args, mods)
+						_ = ps
+						continue
+					}
 					impls := e.implementations(c)
 					if impls == nil {
 						all = true
@@ -372,17 +381,8 @@ func (e *Engine) localMods(fn *ssa.Function) (map[string]bool, []*ssa.Function, 
 				}
 				switch f := c.Value.(type) {
 				case *ssa.Function:
-					if con := e.contractFor(f); con != nil && len(con.Writes) > 0 {
-						// the callee writes only the backing arrays of the named slice arguments
-						for _, w := range con.Writes {
-							for pi, p := range f.Params {
-								if p.Name() == w && pi < len(c.Args) && !rootIsLocalAlloc(c.Args[pi], 0) {
-									if sl, ok := c.Args[pi].Type().Underlying().(*types.Slice); ok {
-										addTypeHeaps("A."+typeName(sl.Elem()), sl.Elem(), mods)
-									}
-								}
-							}
-						}
+					if con := e.contractFor(f); con != nil && con.HasMod && (len(con.Writes) > 0 || hasConfined(con.Modifies)) {
+						e.confinedMods(con, f.Params, c.Args, mods)
 						continue
 					}
 					callees = append(callees, f)
@@ -473,6 +473,9 @@ func (e *Engine) modset(fn *ssa.Function) map[string]bool {
 		if c := e.contractFor(f); c != nil && c.HasMod {
 			m := map[string]bool{}
 			for _, h := range c.Modifies {
+				if i := strings.Index(h, "@"); i >= 0 {
+					h = h[:i]
+				}
 				m[h] = true
 			}
 			for _, w := range c.Writes {
@@ -645,10 +648,35 @@ func rootIsLocal(v ssa.Value, seen map[ssa.Value]bool) bool {
 		if b, ok := x.Call.Value.(*ssa.Builtin); ok && b.Name() == "append" {
 			return rootIsLocal(x.Call.Args[0], seen)
 		}
+		// results of callees whose contract says `fresh` are objects allocated during this call
+		if theEngine != nil {
+			if x.Call.IsInvoke() {
+				if x.Call.Method.Name() == "Header" {
+					return rootIsLocal(x.Call.Value, seen) // &rr.Hdr: inside the receiver
+				}
+				if con := theEngine.ifaceContract(&x.Call); con != nil && con.Fresh {
+					return true
+				}
+			} else if f, ok := x.Call.Value.(*ssa.Function); ok {
+				if con := theEngine.contractFor(f); con != nil && con.Fresh {
+					return true
+				}
+			}
+		}
+	case *ssa.TypeAssert:
+		return rootIsLocal(x.X, seen)
+	case *ssa.MakeInterface:
+		return rootIsLocal(x.X, seen)
+	case *ssa.ChangeInterface:
+		return rootIsLocal(x.X, seen)
+	case *ssa.Extract:
+		return rootIsLocal(x.Tuple, seen)
 	}
 	_ = depth
 	return false
 }
+
+var theEngine *Engine
 
 // inferredMods: heaps the body of fn may modify in pre-existing objects (its own declared frame ignored).
 func (e *Engine) inferredMods(fn *ssa.Function) map[string]bool {
@@ -672,4 +700,76 @@ func (e *Engine) inferredMods(fn *ssa.Function) map[string]bool {
 		}
 	}
 	return out
+}
+
+func hasConfined(mods []string) bool {
+	for _, m := range mods {
+		if strings.Contains(m, "@") {
+			return true
+		}
+	}
+	return false
+}
+
+// confinedMods adds the effects of a call whose contract confines them to its arguments: `writes p` (the
+// backing array of slice p) and `modifies H@p` (heap H of the object p designates).  Effects on arguments
+// that are local to the calling function (allocated by it or fresh results) are invisible to its callers.
+func (e *Engine) confinedMods(con *Contract, params []*ssa.Parameter, args []ssa.Value, mods map[string]bool) {
+	argOf := func(name string) ssa.Value {
+		for pi, p := range params {
+			if (p.Name() == name || (name == "recv" && pi == 0)) && pi < len(args) {
+				return args[pi]
+			}
+		}
+		return nil
+	}
+	for _, w := range con.Writes {
+		if a := argOf(w); a != nil && !rootIsLocalAlloc(a, 0) {
+			if sl, ok := a.Type().Underlying().(*types.Slice); ok {
+				addTypeHeaps("A."+typeName(sl.Elem()), sl.Elem(), mods)
+			}
+		}
+	}
+	for _, m := range con.Modifies {
+		i := strings.Index(m, "@")
+		if i < 0 {
+			mods[m] = true
+			continue
+		}
+		if a := argOf(m[i+1:]); a == nil || !rootIsLocalAlloc(a, 0) {
+			mods[m[:i]] = true
+		}
+	}
+}
+
+func (e *Engine) confinedIface(con *Contract, c *ssa.CallCommon, args []ssa.Value, mods map[string]bool) {
+	sig := c.Signature()
+	argOf := func(name string) ssa.Value {
+		if name == "recv" {
+			return args[0]
+		}
+		for i := 0; i < sig.Params().Len(); i++ {
+			if sig.Params().At(i).Name() == name && i+1 < len(args) {
+				return args[i+1]
+			}
+		}
+		return nil
+	}
+	for _, w := range con.Writes {
+		if a := argOf(w); a != nil && !rootIsLocalAlloc(a, 0) {
+			if sl, ok := a.Type().Underlying().(*types.Slice); ok {
+				addTypeHeaps("A."+typeName(sl.Elem()), sl.Elem(), mods)
+			}
+		}
+	}
+	for _, m := range con.Modifies {
+		i := strings.Index(m, "@")
+		if i < 0 {
+			mods[m] = true
+			continue
+		}
+		if a := argOf(m[i+1:]); a == nil || !rootIsLocalAlloc(a, 0) {
+			mods[m[:i]] = true
+		}
+	}
 }
